@@ -6,7 +6,8 @@
     the answer of a request whose snapshot of the checker list saw the first [ps] operations of
     [ops] and whose i-th checker call saw the first [nth i pr] operations.  [std l]: every check
     of [l] answers "pass" or "fail" (true for ReadyGate — C33_gate_histories_are_std — and for
-    the startup and scheduler-pulse checkers). *)
+    the startup and scheduler-pulse checkers); it is needed only for "ordered by name" and for
+    the concurrency theorem. *)
 From Verif Require Import Base.Prelude Model.C33 Proofs.C33.
 From Coq Require Import Permutation Sorted.
 Local Open Scope N_scope.
@@ -18,69 +19,72 @@ Proof. exact gate_ops_std. Qed.
 Print Assumptions C33_gate_histories_are_std.
 
 (** 200 exactly when every registered ready check currently passes (for a ReadyGate: its last
-    signal was Ready()) *)
+    signal was Ready()) — FULL, for all statuses (since the fix of finding
+    check-status-neither-pass-nor-fail: any result other than "pass" fails the aggregate) *)
 Theorem C33_ready_200_iff_all_ready :
-  forall s, std (s_ready s) ->
-    (r_code (atomic_response true s) = 200 <-> all_pass (s_ready s) = true).
-Proof. exact ready_200_iff. Qed.
+  forall s, r_code (atomic_response true s) = 200 <-> all_pass (s_ready s) = true.
+Proof. exact ready_200_iff_all. Qed.
 Print Assumptions C33_ready_200_iff_all_ready.
 
 (** ... with body status "ready" and no checks listed; otherwise 503 "starting" listing exactly
-    the checks that do not pass (as a multiset: a permutation of them), ordered by name *)
+    the checks that do not pass (as a multiset: a permutation of them), in the order of the
+    listed checks (status text, then name) — for pass/fail checks: ordered by name *)
 Theorem C33_ready_503_lists_exactly_unready :
-  forall s, std (s_ready s) ->
+  forall s,
     (r_code (atomic_response true s) = 200 ->
        r_checks (atomic_response true s) = [] /\ r_status (atomic_response true s) = 0) /\
     (all_pass (s_ready s) = false ->
        r_code (atomic_response true s) = 503 /\ r_status (atomic_response true s) = 1 /\
        Permutation (r_checks (atomic_response true s)) (not_passing (s_ready s)) /\
-       StronglySorted (fun a b => k_name a <= k_name b) (r_checks (atomic_response true s))).
-Proof. intros s Hs. split; [apply ready_200_body | apply ready_503_lists; exact Hs]. Qed.
+       StronglySorted (fun a b => kle a b = true) (r_checks (atomic_response true s)) /\
+       (std (s_ready s) ->
+          StronglySorted (fun a b => k_name a <= k_name b) (r_checks (atomic_response true s)))).
+Proof. intros s. split; [apply ready_200_body | apply ready_503_lists_all]. Qed.
 Print Assumptions C33_ready_503_lists_exactly_unready.
 
-(** FULL STATEMENT without [std] (refuted): a ready check answering a status that is neither
-    pass nor fail after a failing one makes /ready answer 200.  Known finding
-    check-status-neither-pass-nor-fail, replayed on the real handler. *)
-Theorem C33_ready_200_iff_all_pass_refuted :
-  let s := {| s_ready := [ {| k_name := 1; k_status := ST_FAIL; k_msg := M_NOT_READY |};
-                           {| k_name := 2; k_status := 3; k_msg := 10 |} ]; s_health := [] |} in
-  all_pass (s_ready s) = false /\ r_code (atomic_response true s) = 200.
-Proof. vm_compute. split; reflexivity. Qed.
-Print Assumptions C33_ready_200_iff_all_pass_refuted.
-
 (** ** /health *)
-(** the aggregate is "pass" iff every check passes — for ALL statuses *)
-Theorem C33_aggregate_pass_iff_all_pass : forall l, overall l = ST_PASS <-> all_pass l = true.
-Proof. exact overall_pass_iff. Qed.
+(** the aggregate is "pass" iff every check passes and "fail" otherwise — for ALL statuses *)
+Theorem C33_aggregate_pass_iff_all_pass :
+  forall l, (overall l = ST_PASS <-> all_pass l = true) /\ (overall l = ST_FAIL <-> all_pass l = false).
+Proof. intro l. split; [apply overall_pass_iff | apply overall_fail_iff_all]. Qed.
 Print Assumptions C33_aggregate_pass_iff_all_pass.
 
-(** FULL STATEMENT: forall s, r_code (atomic_response false s) = 200 <-> all_pass (s_health s) = true.
-    Refuted by the faithful model: [bolt: fail; query: status ""] answers 200 "healthy" (the
-    aggregate is the LAST non-pass status and the handler only tests == "fail"). *)
-Theorem C33_health_200_iff_all_pass_refuted :
-  let s := {| s_ready := []; s_health := [ {| k_name := 1; k_status := ST_FAIL; k_msg := 10 |};
-                                           {| k_name := 2; k_status := 2; k_msg := M_EMPTY |} ] |} in
-  all_pass (s_health s) = false /\ r_code (atomic_response false s) = 200 /\
-  r_message (atomic_response false s) = M_HEALTHY.
+(** 200 "pass" exactly when every health check passes, else 503 "fail" — FULL *)
+Theorem C33_health_200_iff_all_pass :
+  forall s, (r_code (atomic_response false s) = 200 <-> all_pass (s_health s) = true) /\
+            r_status (atomic_response false s) = (if all_pass (s_health s) then ST_PASS else ST_FAIL).
+Proof. intro s. split; [apply health_200_iff_all | apply health_body_status]. Qed.
+Print Assumptions C33_health_200_iff_all_pass.
+
+(** The former counterexamples (a check answering a status that is neither pass nor fail after
+    a failing one): with the aggregate of the code before the fix ([overall_before_fix] = the
+    LAST non-pass status) the handlers, which tested == "fail", answered 200; now 503, and the
+    odd-status check is listed / reported like any other check that does not pass. *)
+Example C33_before_fix_counterexample :
+  let sr := {| s_ready := [ {| k_name := 1; k_status := ST_FAIL; k_msg := M_NOT_READY |};
+                            {| k_name := 2; k_status := 3; k_msg := 10 |} ]; s_health := [] |} in
+  let sh := {| s_ready := []; s_health := [ {| k_name := 1; k_status := ST_FAIL; k_msg := 10 |};
+                                            {| k_name := 2; k_status := 2; k_msg := M_EMPTY |} ] |} in
+  overall_before_fix (s_ready sr) = 3 /\ overall_before_fix (s_health sh) = 2 /\
+  r_code (atomic_response true sr) = 503 /\ map k_name (r_checks (atomic_response true sr)) = [1; 2] /\
+  r_code (atomic_response false sh) = 503 /\ r_status (atomic_response false sh) = ST_FAIL /\
+  r_message (atomic_response false sh) = M_FAIL.
 Proof. vm_compute. repeat split; reflexivity. Qed.
-Print Assumptions C33_health_200_iff_all_pass_refuted.
 
-(** strongest true weakening: when every check answers pass or fail *)
-Theorem C33_health_200_iff_all_pass_partial :
-  forall s, std (s_health s) ->
-    (r_code (atomic_response false s) = 200 <-> all_pass (s_health s) = true).
-Proof. exact health_200_iff. Qed.
-Print Assumptions C33_health_200_iff_all_pass_partial.
-
-(** 503: the message is the message ("fail" if empty) of a failing check with the LEAST NAME,
-    which is the first failing entry of the listed checks (listed: failing first, then by name) *)
+(** 503: the message is the message ("fail" if empty) of the first entry of the listed checks
+    that does not pass; no other not-passing check precedes it in the listing order (status
+    text, then name); when every check answers pass or fail it is the failing check with the
+    LEAST NAME *)
 Theorem C33_health_503_first_failing_message :
   forall s, r_code (atomic_response false s) = 503 ->
-    exists c, In c (s_health s) /\ k_status c = ST_FAIL /\
-              (forall d, In d (s_health s) -> k_status d = ST_FAIL -> k_name c <= k_name d) /\
+    exists c, In c (s_health s) /\ k_status c <> ST_PASS /\
+              (forall d, In d (s_health s) -> k_status d <> ST_PASS -> kle c d = true) /\
+              (std (s_health s) ->
+                 k_status c = ST_FAIL /\
+                 forall d, In d (s_health s) -> k_status d = ST_FAIL -> k_name c <= k_name d) /\
               r_message (atomic_response false s) = msg_or_fail c /\
               exists pre post, r_checks (atomic_response false s) = pre ++ c :: post /\
-                               forall d, In d pre -> k_status d <> ST_FAIL.
+                               forall d, In d pre -> k_status d = ST_PASS.
 Proof. exact health_503_message. Qed.
 Print Assumptions C33_health_503_first_failing_message.
 
